@@ -99,4 +99,19 @@ Section Serve.
   (* handlers invoked for one request: the list of handler ids that ran *)
   Definition serve_trace (tagfix : bool) (mx : mux) (m : message) : list hid :=
     match serve tagfix mx m with Run h => [h] | Refuse _ => [] end.
+
+  (* a Mux over time: registration calls and served requests in any order
+     (Mux methods may be called while the server runs).  Serving does not
+     change the mux; a registration changes it for every later request. *)
+  Inductive mux_event := EvReg (g : reg) | EvServe (m : message).
+
+  Fixpoint run_events (tagfix : bool) (mx : mux) (evs : list mux_event) : list action :=
+    match evs with
+    | [] => []
+    | EvReg g :: r => run_events tagfix (fst (register mx g)) r
+    | EvServe m :: r => serve tagfix mx m :: run_events tagfix mx r
+    end.
+
+  Definition regs_of (evs : list mux_event) : list reg :=
+    flat_map (fun e => match e with EvReg g => [g] | EvServe _ => [] end) evs.
 End Serve.
